@@ -28,16 +28,40 @@ def tokenise(err):
     m = re.match(r"Child limit exceeded (\S+?)\.(\S+)$", s)
     if m:
         return [["limit", m.group(1), m.group(2)]]
-    m = re.match(r"Invalid children detected for <\w+ (\S*?)>: \[(.*)\]$", s)
+    m = re.match(r"Invalid children detected for <\w+ (\S*?)(?: \(.*?\))?(?: of type \S+)?>: \[(.*)\]$", s)
     if m:
         names = [x.strip().strip("'\"") for x in m.group(2).split(",") if x.strip()]
         return [["invalid", m.group(1), ("?" if n == "None" else n)] for n in names]
     return [["other", s[:60], ""]]
 
 
+def field_records(seg, v, row, tab):
+    """fields of a complex datatype: their components against the datatype's table (missing / limit only: kinds
+    FIELD_KINDS); fields whose datatype was overridden, varies fields and fields beyond the table are left out"""
+    out = []
+    byname = dict((r["name"], r) for r in tab)
+    for f in seg.children:
+        r = byname.get(f.name)
+        if r is None or r["kind"] != "complex" or f.datatype != r["dt"]:
+            continue
+        comps = T.dt_rows(v, r["dt"])
+        if not comps:
+            continue
+        out.append({"row": row, "name": f.name, "table": [[c["name"], c["min"], c["max"]] for c in comps],
+                    "kids": [c.name for c in f.children if c.name and c.name in set(x["name"] for x in comps)], "level": "field"})
+    return out
+
+
 def project(m, v):
     rows = []
     segs = []
+    if m.classname == "Segment":       # a segment validated on its own
+        tab = T.seg_rows(v, m.name) if len(m.name or "") == 3 else None
+        if tab is not None and not m.is_z_element():
+            segs.append({"row": 0, "name": m.name, "table": [[r["name"], r["min"], r["max"]] for r in tab],
+                         "kids": [f.name or "?" for f in m.children]})
+            segs.extend(field_records(m, v, 0, tab))
+        return rows, segs
 
     def walk(el, par):
         for ch in el.children:
@@ -52,6 +76,7 @@ def project(m, v):
                 if tab is not None and not ch.is_z_element():     # ([] = a segment defined without fields)
                     segs.append({"row": me, "name": nm, "table": [[r["name"], r["min"], r["max"]] for r in tab],
                                  "kids": [f.name or "?" for f in ch.children]})
+                    segs.extend(field_records(ch, v, me, tab))
     walk(m, 0)
     return rows, segs
 
@@ -60,6 +85,7 @@ def observe(m, v, sid, nodes, mode, mutation):
     import_hl7apy()
     rows, segs = project(m, v)
     parents = set([sid]) | set(r[0] for r in rows)
+    fparents = set(x["name"] for x in segs if x.get("level") == "field")
     e = {"v": v, "sid": sid, "mode": mode, "mutation": mutation, "struct": nodes, "tree": rows, "segs": segs,
          "errors": [], "err_texts": [], "warn_texts": [], "err_texts2": [], "warn_texts2": [], "is_valid": False,
          "raised": "-", "file_lines": [], "path_lines": [], "outcome": "report"}
@@ -73,6 +99,8 @@ def observe(m, v, sid, nodes, mode, mutation):
         for x in r.errors:
             for t in tokenise(x):
                 if t[0] != "other" and t[1] in parents:
+                    toks.append(t)
+                elif t[0] in ("missing", "limit") and t[1] in fparents:
                     toks.append(t)
         e["errors"] = toks
         r2 = m.validate(return_errors=True)
@@ -170,7 +198,15 @@ def _chunk(args):
                 muts.append(("unknown_field", rnd.choice(segs)))
                 muts.append(("duplicate_field", rnd.choice(segs)))
                 muts.append(("z_segment", rnd.choice(segs)))
+                muts.append(("add_then_remove_field", rnd.choice(segs)))
+                bounded = [(k, p, c) for (k, p, c) in segs if any(r["max"] >= 2 for r in (T.seg_rows(v, c.name) or []))]
+                if bounded:
+                    t = rnd.choice(bounded)
+                    muts.append(("exceed_bounded_max", t))
+                    muts.append(("at_bounded_max", t))
             muts.append(("read_absent_children", None))
+            muts.append(("add_then_remove_foreign", None))
+            muts.append(("add_then_remove_z", None))
             if req:
                 muts.append(("remove_required_segment_then_read_it", rnd.choice(req)))
             for (mut, target) in muts:
@@ -199,6 +235,26 @@ def _chunk(args):
                         c.add(Field(nm, version=v))
                     elif mut == "z_segment":
                         p.add(Segment("ZZ1", version=v))
+                    elif mut == "add_then_remove_foreign":
+                        x = Segment(rnd.choice(foreign), version=v)
+                        m.add(x)
+                        m.children.remove(x)
+                    elif mut == "add_then_remove_z":
+                        x = Segment("ZZ1", version=v)
+                        m.add(x)
+                        if rnd.random() < 0.5:
+                            m.children.remove(x)
+                        else:
+                            del m.zz1
+                    elif mut == "add_then_remove_field":
+                        x = Field(version=v)
+                        c.add(x)
+                        c.children.remove(x)
+                    elif mut in ("exceed_bounded_max", "at_bounded_max"):
+                        r_ = rnd.choice([r for r in T.seg_rows(v, c.name) if r["max"] >= 2])
+                        have = len(list(getattr(c, r_["name"].lower())))
+                        for _ in range(max(0, r_["max"] + (1 if mut == "exceed_bounded_max" else 0) - have)):
+                            c.add(Field(r_["name"], version=v))
                     elif mut == "read_absent_children":
                         # pure reads of children that do not exist, at every level, before validating
                         for (pp, cc) in pr:
@@ -239,6 +295,61 @@ def _chunk(args):
     return out
 
 
+def _bounded_chunk(args):
+    """every field with a bounded maximum above one, in a segment validated on its own: at the maximum, one above"""
+    import_hl7apy()
+    from hl7apy.core import Segment, Field
+    v, segnames = args
+    out = []
+    for sn in segnames:
+        tab = T.seg_rows(v, sn) or []
+        for r in tab:
+            if r["max"] < 2:
+                continue
+            for extra in (0, 1):
+                try:
+                    seg = Segment(sn, version=v)
+                    for _ in range(r["max"] + extra):
+                        seg.add(Field(r["name"], version=v))
+                except Exception as ex:
+                    out.append({"harness_note": "bounded field %s %s: %s" % (v, r["name"], exc_name(ex))})
+                    continue
+                out.append(observe(seg, v, sn, [], "segment_alone", "bounded_max_%s" % ("exceeded" if extra else "reached")))
+    return out
+
+
+def order_batch(order):
+    """the same observations in the given order of versions, in ONE process: Z fields of every complex datatype (one
+    component given, the first one left out), a conforming and a defective message per version"""
+    import_hl7apy()
+    from hl7apy.core import Segment, Field
+    from hl7apy.parser import parse_message
+    out = {}
+    for v in order:
+        for dt in T.complex_datatypes(v):
+            comps = T.dt_rows(v, dt) or []
+            if len(comps) < 2:
+                continue
+            try:
+                z = Segment("ZZZ", version=v)
+                f = Field("ZZZ_1", datatype=dt, version=v)
+                f.value = "^12"
+                z.add(f)
+                r = z.validate(return_errors=True)
+                out["%s zfield %s" % (v, dt)] = sorted(str(x) for x in r.errors)
+            except Exception as ex:
+                out["%s zfield %s" % (v, dt)] = ["exc:" + exc_name(ex)]
+        typ = "ADT^A01" if v < "2.3.1" else "ADT^A01^ADT_A01"
+        for tag, body in (("ok", "EVN||20200101\rPID|1||1^^^X||D^J\rPV1|1|I"), ("defect", "PID|1||^2\rPV1|1|I\rPV1|2|O")):
+            try:
+                m = parse_message("MSH|^~\\&|A|B|C|D|20200101||%s|1|P|%s\r%s" % (typ, v, body))
+                r = m.validate(return_errors=True)
+                out["%s msg %s" % (v, tag)] = sorted(str(x) for x in r.errors)
+            except Exception as ex:
+                out["%s msg %s" % (v, tag)] = ["exc:" + exc_name(ex)]
+    return out
+
+
 def signature(e, clause):
     return {"clause": clause, "v": e["v"], "sid": e["sid"], "mutation": e["mutation"], "outcome": e["outcome"]}
 
@@ -265,6 +376,32 @@ def run(ctx):
                 ctx.notes.append(e["harness_note"])
             else:
                 events.append(e)
+    # every field with a bounded maximum above one (they exist from 2.6 on), in a segment validated on its own
+    bj = []
+    for v in T.versions():
+        segn = [s_ for s_ in T.seg_names(v) if any(r["max"] >= 2 for r in (T.seg_rows(v, s_) or []))]
+        if quick:
+            rnd.shuffle(segn)
+            segn = segn[:6]
+        if segn:
+            bj.append((v, segn))
+    nb = 0
+    for part in pmap(_bounded_chunk, bj):
+        for e in part:
+            if "harness_note" in e:
+                ctx.notes.append(e["harness_note"])
+            else:
+                events.append(e)
+                nb += 1
+    ctx.extra["bounded_field_observations"] = nb
+    # the verdict does not depend on what was validated before: the same observations in two orders of the versions
+    vs = T.versions()
+    fwd, rev = pmap(order_batch, [vs, list(reversed(vs))])
+    for key in sorted(set(fwd) | set(rev)):
+        events.append({"outcome": "order", "v": key.split()[0], "sid": key, "mode": "order", "mutation": "order",
+                       "fwd": fwd.get(key, ["absent"]), "rev": rev.get(key, ["absent"]), "tree": [], "errors": [], "err_texts": [],
+                       "raised": "-", "file_lines": []})
+    ctx.extra["order_independence_observations"] = len(fwd)
     ctx.notes = sorted(set(ctx.notes))[:40]
     for i, e in enumerate(events):
         e["id"] = i + 1
@@ -283,8 +420,12 @@ def run(ctx):
         ctx.sample({"v": e["v"], "sid": e["sid"], "mode": e["mode"], "mutation": e["mutation"], "errors": e["errors"][:6]})
     ctx.rule = ("message structures (quick: 9 per version; thorough: all) x up to 4 (12) generated instances x {as parsed, "
                 "required segment removed, non-repeatable segment duplicated, group removed, foreign segment in a group / in "
-                "the message, unknown field, duplicated field, Z-segment}; non-trivial = TLC prescribes at least one error; "
+                "the message, unknown field, duplicated field, Z-segment, a foreign / Z segment or an unknown field added and "
+                "removed again, a field with a bounded maximum above one at and above its maximum}; every such field of every "
+                "version in a segment validated on its own; components of fields of complex datatypes (missing / limit); the "
+                "same observations (Z fields of every complex datatype, two messages per version) in two orders of the "
+                "versions; non-trivial = TLC prescribes at least one error; "
                 "distinct by (version, structure, instance mode, mutation)")
     ctx.assumptions += ["error texts are tokenised by the harness into <<kind, parent, child>>; only errors whose parent is "
-                        "the message, a group or a segment are compared (component level and datatype errors are not)",
+                        "the message, a group, a segment or a field of a complex datatype (missing / limit only) are compared",
                         "minimal segment lines (SEG|n) are used, so missing required fields are part of the expected errors"]
